@@ -23,9 +23,10 @@ Open Scope N_scope.
 (* which of the two repairs proposed in /verif/fixes are present in the tree *)
 Record variant := {
   v_success_gate : bool;   (* handleHandshake touches the registry only when the handshake response is Success *)
-  v_anon_delete : bool }.  (* DeleteAnonymousClient also deletes the stored credentials (ClientConfig) *)
-Definition current_variant := {| v_success_gate := true; v_anon_delete := true |}.
-Definition pinned_variant := {| v_success_gate := false; v_anon_delete := false |}.
+  v_anon_delete : bool;    (* DeleteAnonymousClient also deletes the stored credentials (ClientConfig) *)
+  v_first_keeps : bool }.  (* handleFirstConnection no longer calls RecordSuccess (fixes/C18-anon-registration-keeps-failures.diff) *)
+Definition current_variant := {| v_success_gate := true; v_anon_delete := true; v_first_keeps := true |}.
+Definition pinned_variant := {| v_success_gate := false; v_anon_delete := false; v_first_keeps := false |}.
 
 Definition upd {A} (f : N -> A) (k : N) (v : A) : N -> A := fun x => if x =? k then v else f x.
 
@@ -121,14 +122,18 @@ Definition record_failure (s : srv) (a : N) : srv :=
 (* BruteForceProtector.RecordSuccess *)
 Definition clear_fails (s : srv) (a : N) : srv := set_fails s (upd (fails s) a 0).
 
+(* server state after handleFirstConnection: a new client; the tree as found also clears the address's failure record *)
+Definition first_state (keep : bool) (s : srv) (a : N) : srv :=
+  if keep then register s else clear_fails (register s) a.
+
 (* auth_handler.go HandleHandshake, on the ControlConnection [c] of a peer at address [a] *)
-Definition auth (s : srv) (c : cc) (a : N) (m : hs) : srv * cc * aresp :=
+Definition auth (keep : bool) (s : srv) (c : cc) (a : N) (m : hs) : srv * cc * aresp :=
   if black s a then (s, c, AFail)                                        (* 1. IPManager.IsAllowed *)
   else if banned s a then (s, c, AFail)                                  (* 2. BruteForceProtector.IsBanned *)
   else if (h_cid m =? 0) && rl_deny s then (s, c, AFail)                 (* 3. rate limit, anonymous only *)
   else if (h_cid m =? 0) && h_new m then                                 (* 4. handleFirstConnection *)
     let id := next_id s in
-    (clear_fails (register s) a, {| authed := true; ccid := id; pending := pending c |}, ASuccessNew id)
+    (first_state keep s a, {| authed := true; ccid := id; pending := pending c |}, ASuccessNew id)
   else match clients s (h_cid m) with
   | None => (record_failure s a, c, AFail)                               (* client not found *)
   | Some cl =>
@@ -183,7 +188,7 @@ Definition handle (v : variant) (s : srv) (k : N) (m : option hs) : srv * out :=
     | None => (s, {| o_err := true; o_wire := WNone; o_auth := None |})   (* connection not found *)
     | Some cn =>
       let c0 := match c_cc cn with Some c => c | None => new_cc end in    (* existing or NewControlConnection+Register *)
-      let '(s1, c1, ar) := auth s c0 (c_addr cn) h in
+      let '(s1, c1, ar) := auth (v_first_keeps v) s c0 (c_addr cn) h in
       let s2 := set_conns s1 (upd (conns s1) k (Some {| c_open := c_open cn; c_addr := c_addr cn; c_cc := Some c1 |})) in
       let s3 := set_index s2 (reconcile (index s2) k c1) in               (* ReconcileIndex *)
       match ar with
